@@ -562,10 +562,18 @@ Section DeEqs.
     match w with
     | WDict _ kvs => dbody E c (dsubs_of kvs)
     | _ => fun n => (None, if c_prede (cls E c) then [PreDe c] else [], n) end.
-  Definition call_dc_de (w: wire) (c: nat) : D :=
-    match c_disc (cls E c) with
-    | Some wf => dispatch E (tag_of w) wf (subclasses E c) (plain_de w)
-    | None => plain_de w c end.
+  Definition from_dict_f (w: wire) : nat -> nat -> D :=
+    fix fd (fuel: nat) (c: nat) {struct fuel} : D :=
+    match fuel with
+    | 0 => plain_de w c
+    | S f => match c_disc (cls E c) with
+             | Some wf => dispatch E (tag_of w) wf (subclasses E c) (fd f)
+             | None => plain_de w c
+             end
+    end.
+  Definition call_dc_de (w: wire) (c: nat) : D := from_dict_f w (S (length E)) c.
+  Lemma from_dict_plain w fuel c : c_disc (cls E c) = None -> from_dict_f w fuel c = plain_de w c.
+  Proof. intros H. destruct fuel; simpl; [reflexivity|]. rewrite H. reflexivity. Qed.
   Lemma unpack_TInt w : unpack E w TInt = match w with WInt => dret VInt | _ => dfail end.
   Proof. destruct w; reflexivity. Qed.
   Lemma unpack_TOpt w t : unpack E w (TOpt t) = match w with WNone => dret VNone | _ => unpack E w t end.
@@ -581,7 +589,7 @@ Section DeEqs.
   Lemma unpack_TDc w c : unpack E w (TDc c) = call_dc_de w c.
   Proof. destruct w; reflexivity. Qed.
   Lemma unpack_TDisc w p wf sup :
-    unpack E w (TDisc p wf sup) = dispatch E (tag_of w) wf (disc_variants E p sup) (plain_de w).
+    unpack E w (TDisc p wf sup) = dispatch E (tag_of w) wf (disc_variants E p sup) (call_dc_de w).
   Proof. destruct w; reflexivity. Qed.
   Lemma unpack_TUnion w cs : unpack E w (TUnion cs) = dtry (map (call_dc_de w) (dedup_nat cs [])).
   Proof. destruct w; reflexivity. Qed.
@@ -666,11 +674,13 @@ Section DeTrace.
     match w with WDict _ kvs => Forall (fun kx => dgood (snd kx)) kvs | _ => True end ->
     forall c n r tr n', call_dc_de E w c n = (Some r, tr, n') -> tr = trav_de E r.
   Proof.
-    intros IH c n r tr n' H. unfold call_dc_de in H.
-    pose proof (env_uf_disc E c HE) as Hd. unfold disc_det in Hd.
-    destruct (c_disc (cls E c)) as [[|]|]; try discriminate.
-    - eapply dispatch_trav; [|exact H]. intros v. apply plain_trav. exact IH.
+    intros IH c. unfold call_dc_de. generalize (S (length E)) as fuel. intros fuel. revert c.
+    induction fuel as [|f IHf]; intros c n r tr n' H; simpl in H.
     - eapply plain_trav; eauto.
+    - pose proof (env_uf_disc E c HE) as Hd. unfold disc_det in Hd.
+      destruct (c_disc (cls E c)) as [[|]|]; try discriminate.
+      + eapply dispatch_trav; [|exact H]. intros v. apply IHf.
+      + eapply plain_trav; eauto.
   Qed.
 
   Ltac de_case IH :=
@@ -678,7 +688,7 @@ Section DeTrace.
     | H: unpack _ _ (TDc _) _ = _ |- _ => rewrite unpack_TDc in H; eapply call_dc_trav; [|exact H]; exact IH
     | H: unpack _ _ (TDisc _ ?wf _) _ = _, Hu: union_free (TDisc _ ?wf _) = true |- _ =>
         rewrite unpack_TDisc in H; simpl in Hu; rewrite Hu in H;
-        eapply dispatch_trav; [|exact H]; intros v0; apply plain_trav; exact IH
+        eapply dispatch_trav; [|exact H]; intros v0; apply call_dc_trav; exact IH
     end.
 
   Theorem unpack_trav : forall w, dgood w.
@@ -821,15 +831,15 @@ Theorem disc_config_dispatch E c t v kvs n :
   c_disc (cls E c) = Some true -> lookup_tag E (subclasses E c) t = Some v -> c_disc (cls E v) = None ->
   unpack E (WDict (Some t) kvs) (TDc c) n = unpack E (WDict (Some t) kvs) (TDc v) n.
 Proof.
-  intros Hc Hl Hv. rewrite !unpack_TDc. unfold call_dc_de. rewrite Hc, Hv.
-  unfold dispatch, tag_of. rewrite Hl. reflexivity.
+  intros Hc Hl Hv. rewrite !unpack_TDc. unfold call_dc_de. simpl from_dict_f. rewrite Hc, Hv.
+  unfold dispatch, tag_of. rewrite Hl. rewrite (from_dict_plain E _ _ v Hv). reflexivity.
 Qed.
 
 Theorem disc_annotated_dispatch E p sup t v kvs n :
   lookup_tag E (disc_variants E p sup) t = Some v -> c_disc (cls E v) = None ->
   unpack E (WDict (Some t) kvs) (TDisc p true sup) n = unpack E (WDict (Some t) kvs) (TDc v) n.
 Proof.
-  intros Hl Hv. rewrite unpack_TDisc, unpack_TDc. unfold call_dc_de. rewrite Hv.
+  intros Hl Hv. rewrite unpack_TDisc, unpack_TDc.
   unfold dispatch, tag_of. rewrite Hl. reflexivity.
 Qed.
 
@@ -839,7 +849,7 @@ Theorem disc_no_variant E c kvs n :
   unpack E (WDict None kvs) (TDc c) n = (None, [], n) /\
   (forall t, lookup_tag E (subclasses E c) t = None -> unpack E (WDict (Some t) kvs) (TDc c) n = (None, [], n)).
 Proof.
-  intros Hc. split; [|intros t Hl]; rewrite unpack_TDc; unfold call_dc_de; rewrite Hc; unfold dispatch, tag_of.
+  intros Hc. split; [|intros t Hl]; rewrite unpack_TDc; unfold call_dc_de; simpl from_dict_f; rewrite Hc; unfold dispatch, tag_of.
   - reflexivity.
   - rewrite Hl. reflexivity.
 Qed.
